@@ -584,6 +584,17 @@ PROBES = {
 _UUID_RE = re.compile(r"[0-9a-f]{8}-[0-9a-f]{4}-[0-9a-f]{4}-[0-9a-f]{4}-[0-9a-f]{12}|\([a-z_0-9 ]+\)[0-9a-f]{4,5}-[0-9a-f]{2,}")
 
 
+class _StepTimeout(BaseException):
+    """Raised from SIGALRM inside a child process: not swallowed by the interpreter's `except Exception`."""
+
+
+def _alarm_handler(signum, frame):
+    raise _StepTimeout()
+
+
+STEP_SECONDS = 6
+
+
 class _Renamer:
     def __init__(self):
         self.m = {}
@@ -717,10 +728,12 @@ def _run_trace(src, events, cut, mode, pick):
        aged+restored : both.
     Returns (list of canonical outputs per step AFTER the cut, info)."""
     import random as _random
+    import signal
 
     from harness import v2util
     from nemoguardrails.colang.v2_x.runtime import serialization as ser
 
+    signal.signal(signal.SIGALRM, _alarm_handler)
     _Clock.offset = 0.0
     _random.choice = (lambda seq: seq[0]) if pick == 0 else (lambda seq: seq[-1])
     info = {}
@@ -735,7 +748,11 @@ def _run_trace(src, events, cut, mode, pick):
             k = int(ev["action_uid"][1:])
             ev["action_uid"] = started[k] if k < len(started) else "none"
         try:
-            st = v2util.step(st, ev) if ev.get("type") != "__start__" else v2util.start_main(st)
+            signal.alarm(STEP_SECONDS)
+            try:
+                st = v2util.step(st, ev) if ev.get("type") != "__start__" else v2util.start_main(st)
+            finally:
+                signal.alarm(0)
             o = list(st.outgoing_events)
             for e in o:
                 if isinstance(e, dict) and str(e.get("type", "")).startswith("Start") and "action_uid" in e:
@@ -789,8 +806,11 @@ def worker_main():
     _Clock.install()
     results = []
     t_end = time.time() + job.get("budget_s", 150)
-    for item in job["items"]:
+    n_items = len(job["items"])
+    for k_item, item in enumerate(job["items"]):
         src, pid_ = item["src"], item["id"]
+        # every program gets its share of what is left of the budget
+        item_end = time.time() + max(0.5, (t_end - time.time()) / max(1, n_items - k_item))
         try:
             _fresh_state(src)
         except Exception as ex:  # not a program of the language: not a case
@@ -800,7 +820,7 @@ def worker_main():
                "nontrivial_cuts": 0}
         for hist in item["histories"]:
             for cut in range(1, len(hist) + 2):       # cut before event index `cut` (after start + cut-1 events)
-                if time.time() > t_end:
+                if time.time() > item_end:
                     rec["truncated"] = True
                     break
                 for cont in item["continuations"]:
@@ -830,6 +850,7 @@ def worker_main():
         rec["save_failures"] = rec["save_failures"][:6]
         rec["invariant"] = rec["invariant"][:3]
         results.append(rec)
+        json.dump(results, open(sys.argv[2] + ".part", "w"), default=repr)
     json.dump(results, open(sys.argv[2], "w"), default=repr)
 
 
@@ -1041,7 +1062,7 @@ def rails_worker_main():
 def _spawn(entry, args, timeout_s, extra_env=None):
     env = dict(os.environ)
     env.update(C.impl_env())
-    env["NEMO_GUARDRAILS_VERIF_MAX_STEPS"] = "20000"
+    env["NEMO_GUARDRAILS_VERIF_MAX_STEPS"] = "4000"
     if extra_env:
         env.update(extra_env)
     return subprocess.Popen(["timeout", str(timeout_s), C.PY, "-c", f"from harness import c11; c11.{entry}()"] + args,
@@ -1238,7 +1259,10 @@ def run(tier, seed, replay=None):
             res = json.load(open(rpth))
         except Exception as ex:
             out.add_broken("behavioural:C11-worker", f"worker died (rc={p.returncode}): {err[-1200:]}")
-            continue
+            try:
+                res = json.load(open(rpth + ".part"))      # what it finished before dying
+            except Exception:
+                continue
         srcs = {it["id"]: it["src"] for it in job["items"]}
         for r in res:
             if "skipped" in r:
